@@ -218,7 +218,21 @@ def run_case(case, ctx):
             b.replace_last(r1)
             up = mk_event(case["repl"][2])
             up.id = ids[-1]
-            b.insert([up])
+            # one bulk call that rewrites an event AND inserts new ones, the rewrite listed first: every new event is stored
+            # with its OWN instant, duration and data
+            mixed = [dict(case["repl"][0], data=dict(case["repl"][0]["data"], uid=4000)),
+                     dict(case["repl"][1], data=dict(case["repl"][1]["data"], uid=4001, extra=[1, {"k": "v"}]))]
+            b.insert([up] + [mk_event(m) for m in mixed] if case.get("del_pick", 0) % 2 else [mk_event(mixed[0]), up, mk_event(mixed[1])])
+            rows = {}
+            for t in dump_bucket(b):
+                rows.setdefault(__import__("json").loads(t[3]).get("uid"), []).append(t)
+            for m in mixed:
+                g = rows.get(m["data"]["uid"], [])
+                if len(g) != 1:
+                    viols.append(("event-of-a-mixed-bulk-call-missing-or-duplicated", f"backend={backend} uid={m['data']['uid']} found={len(g)}"))
+                else:
+                    _cmp("mixed-bulk", _want(m), g[0], viols)
+            ctx.count("mixed_bulk_calls_checked")
             upd = copy.deepcopy(case["update_data"])
             ds.update_bucket("b", data=upd)
             handed_out = b.get(-1) + [x for x in (b.get_by_id(i) for i in ids) if x is not None]
